@@ -154,6 +154,12 @@ def cmdUtf16 (m : List (String × String)) : String :=
   | some s => s!"ok {hexOf s}"
   | none => "err"
 
+/-- `receive body=<hex>` → what `receive` writes to the host for a DATA packet body -/
+def cmdReceive (m : List (String × String)) : String := hexOf (Body.receive (getHex m "body"))
+
+/-- `datapkt chunk=<hex>` → the DATA packet `forward` builds for one backend read -/
+def cmdDataPkt (m : List (String × String)) : String := hexOf (dataPacket (getHex m "chunk"))
+
 /-- `matchauth token= sc= client=` -/
 def cmdMatchAuth (m : List (String × String)) : String :=
   let cfg := parseCfg m
